@@ -249,8 +249,11 @@ func init() {
 		t := &recT{}
 		escaped := try(func() {
 			switch {
-			case !iface:
+			case !iface && recv != "ptrmeth":
 				runHelper(t, dir, enc, cs, func(i int) plainT { return plainT{ID: i} })
+			case dir == "marshal" && recv == "ptrmeth":
+				// a value type with pointer-receiver Marshal* methods: it lacks the marshaler interface
+				runHelper(t, dir, enc, cs, func(i int) mpT { return mpT{ID: i} })
 			case dir == "marshal" && recv == "value":
 				runHelper(t, dir, enc, cs, func(i int) mvT { return mvT{ID: i} })
 			case dir == "marshal":
